@@ -34,7 +34,10 @@ def replay (j : Json) : R Verdict := do
   let survivors := ((fieldD obs "survivors").getArr?.toOption.getD #[]).size
   let outMode := (fieldD j "outDirMode").getNat?.toOption.getD 0
   -- C15 / C04: no crash, no hang
-  if hang then pf := ("C15", "cambrian neither returned nor could be waited for within the watchdog limit (hang)") :: ("C04", "hang") :: pf
+  if hang then
+    pf := ("C15", "cambrian neither returned nor could be waited for within the watchdog limit (hang)") :: ("C04", "hang") :: pf
+    if family == "kill-after" then
+      pf := ("C07", "an evaluation exceeding its time limit was not ended (killed and counted as rejected): the run did not continue") :: pf
   match exitCode with
   | some cde => if cde != 0 && cde != 1 && cde != 2 then pf := ("C15", s!"cambrian exited with status {cde} (crash)") :: pf
   | none => if !hang then pf := ("C15", s!"cambrian was killed by signal {(fieldD obs "signal").compress}") :: pf
@@ -96,6 +99,26 @@ def replay (j : Json) : R Verdict := do
     | some n => if starts.length > n then pf := ("C03", s!"{starts.length} child processes started, budget {n}") :: pf
     | none => pure ()
   | none => pure ()
+  -- C05: the evaluations in progress at the instant a child starts, as the process table shows them: live (not
+  -- zombie) processes of the process groups of OTHER evaluations of this run
+  -- (an evaluation whose child has exited by itself is finished: what it may leave behind is C07's business, D7)
+  let mut finishedPids : List Int := []
+  let mut groupOf : List (Int × Int) := []      -- pid of a started child -> its process group
+  for e in log do
+    match (fieldD e "ev").getStr?.toOption with
+    | some "exit" => match (fieldD e "pid").getInt?.toOption with | some p => finishedPids := p :: finishedPids | none => pure ()
+    | some "start" =>
+      match (fieldD e "pid").getInt?.toOption, (fieldD e "pgid").getInt?.toOption with
+      | some p, some g =>
+        let others := ((fieldD e "others").getArr?.toOption.getD #[]).toList.filterMap (fun x => x.getInt?.toOption)
+        let finishedGroups := groupOf.filterMap (fun (p', g') => if finishedPids.contains p' then some g' else none)
+        let live := (others.filter (fun g' => groupOf.any (·.2 == g') && !finishedGroups.contains g')).length
+        let ncOpt := (optVal opts "--num-concurrent").bind (·.toNat?) |>.getD 1
+        if live + 1 > ncOpt then
+          pf := ("C05", s!"when evaluation {(fieldD e "seed").compress} started, processes of {live} other unfinished evaluation(s) of the run were alive (num_concurrent {ncOpt})") :: pf
+        groupOf := (p, g) :: groupOf
+      | _, _ => pure ()
+    | _ => pure ()
   -- C05: concurrency from the start/exit log (only where children are never killed)
   if family == "budget" then
     let mut cur := 0
